@@ -2,6 +2,7 @@
 import SemaModel.Base.DriverUtil
 import SemaModel.C17.Model
 import SemaModel.Generated.FactsC17
+import SemaModel.ClusterCompose.Driver
 namespace Sema.C17
 open Sema
 
@@ -183,5 +184,8 @@ def stepLine (st : St) (line : String) : St × String :=
 
 end Sema.C17
 
-def Sema.C17.driverMain (stdin stdout : IO.FS.Stream) (_args : List String) : IO Unit :=
-  Sema.loopState stdin stdout Sema.C17.stepLine {}
+/-- `semadriver C17` runs the C17 model; `semadriver C17 cluster` answers the op lines of the cluster-level
+correspondence stream with the composed model of SemaModel/ClusterCompose (C13 + C15 + C16 + C17) -/
+def Sema.C17.driverMain (stdin stdout : IO.FS.Stream) (args : List String) : IO Unit :=
+  if args.head? == some "cluster" then Sema.ClusterCompose.driverMain stdin stdout args.tail
+  else Sema.loopState stdin stdout Sema.C17.stepLine {}
